@@ -461,7 +461,10 @@ def _simple_statements(fn):
         continue
       yield n
     elif isinstance(n, (ast.If, ast.While)):
-      yield ast.Expr(value=n.test, lineno=n.lineno, col_offset=0)
+      t = n.test
+      while isinstance(t, ast.UnaryOp) and isinstance(t.op, ast.Not):
+        t = t.operand  # the polarity of a test goes with the arrangement of its branches, which is not compared here
+      yield ast.Expr(value=t, lineno=n.lineno, col_offset=0)
 
 
 def statements(fn):
